@@ -114,6 +114,13 @@ def executions(tier, seed):
                 if (mtu is None or mtu >= n) and n > UDP_MAX:
                     mtu = UDP_MAX - rnd.choice([0, 1, 300])
                 cases.append({'lengths': [n], 'mtu': mtu, 'salt': len(cases), 'kind': 'sizes'})
+    # dense windows where the per-segment data room crosses a CBOR head-width boundary (23/24, 255/256): the
+    # envelope of the first transfer of a fresh agent (id 0) is computed with the independent encoder
+    for (n, bound) in ((60, 24), (300, 24), (300, 256), (1000, 256)) + (((70000, 256), (65536, 24)) if tier == 'thorough' else ()):
+        env = len(bp7.enc({2: [0, n, n, b'']})) - 1 + len(bp7.head(2, n))
+        for d in range(-3, 4):
+            if n // (bound + d) <= 400:
+                cases.append({'lengths': [n], 'mtu': env + bound + d, 'salt': len(cases), 'kind': 'boundary'})
     out = []
     for c in cases:
         c['order'] = lambda w: list(range(len(w.pending)))
